@@ -92,8 +92,8 @@ type Sched struct {
 	lastT  string
 
 	// callbacks into the run
-	onQuiescent    func()             // scheduler goroutine, everything parked
-	onRw           func(ev string)    // main db writer lock notifications: acquired | committed | released
+	onQuiescent    func()                   // scheduler goroutine, everything parked
+	onRw           func(ev string)          // main db writer lock notifications: acquired | committed | released
 	onRestore      func(point, task string) // reload.lock.after / reload.unlock.after on the main db
 	onSeam         func(site string, key []byte) error
 	Windows        bool // conc profile: sometimes release a set of tasks at once, for one step each (race windows)
